@@ -92,8 +92,11 @@ func (encryptor *QueryDataEncryptor) encryptInsertQuery(ctx context.Context, ins
 					// collect values per column
 					items := listItem.GetList().GetItems()
 					// in case when query `INSERT INTO table1 (col1, col2) VALUES (1, 2), (3, 4, 5);
-					// in a tuple has incorrect amount of values ("5" in the example)
-					if len(items) != len(columnsName) {
+					// in a tuple has incorrect amount of values ("5" in the example).
+					// A tuple with FEWER values than columns is valid PostgreSQL when the column list is
+					// taken from the schema (`INSERT INTO table1 VALUES (1, 2)`, the remaining columns get
+					// their defaults): its values still map to the first columns and must be encrypted.
+					if len(items) > len(columnsName) {
 						continue
 					}
 
@@ -493,6 +496,12 @@ func (encryptor *QueryDataEncryptor) getInsertPlaceholders(ctx context.Context, 
 				logger.WithFields(logrus.Fields{"value_index": i, "column_count": len(columns)}).Warningln("Amount of values in INSERT bigger than column count")
 				continue
 			}
+			// literals (already processed with the query text) are not placeholders: treating them as
+			// placeholder number 0 produced index -1 (panic / ErrInconsistentPlaceholder, after which the
+			// Bind packet was forwarded with plaintext parameters)
+			if value.GetParamRef() == nil {
+				continue
+			}
 			err := encryptor.updatePlaceholderMap(valuesCount, placeholders, int(value.GetParamRef().GetNumber()), columns[i])
 			if err != nil {
 				return nil, err
@@ -585,6 +594,10 @@ func (encryptor *QueryDataEncryptor) encryptUpdateValues(ctx context.Context, up
 			continue
 		}
 
+		// SET column = 'literal' is not a placeholder (see getInsertPlaceholders)
+		if target.GetResTarget().GetVal().GetParamRef() == nil {
+			continue
+		}
 		columnName := target.GetResTarget().GetName()
 		index := int(target.GetResTarget().GetVal().GetParamRef().GetNumber())
 		err := encryptor.updatePlaceholderMap(len(values), placeholders, index, columnName)
